@@ -24,7 +24,7 @@
    structure layout; exercised end to end (in-process and through the three command-line tools). *)
 From Coq Require Import List String Ascii Arith Bool.
 From PC Require Import Base.Codes Comp.Syntax Comp.Compile Comp.Denote Comp.EmitProofs Sys.System Finish.Apply Finish.ApplyProofs Design.ShapeProofs Design.ComposeProofs
-  Design.Designer Design.TemplateProofs Design.DGraph Design.DenoteGraph Design.DenoteTie Design.DenoteSat Design.Results Design.ResultsProofs Design.Loaded Design.CrossProofs Design.EndToEnd.
+  Design.Designer Design.TemplateProofs Design.DGraph Design.DenoteGraph Design.DenoteTie Design.DenoteSat Design.Results Design.ResultsProofs Design.Loaded Design.LoadedStruct Design.CrossProofs Design.EndToEnd.
 Import ListNotations.
 
 Theorem C06_finished_bases_consistent_partial : forall t prefix bs vals, base_values t prefix bs = OK vals ->
@@ -145,3 +145,21 @@ Theorem C06_strand_flattening : forall c, WF c -> forall p, load_spec (emit_comp
             flat_map (ref_c p (ctbl p)) (classify p (emit_items c (s_seqs (t_sup t)))) = map (cvn p) (flatB c (s_base (t_sup t))).
 Proof. exact strand_flattening. Qed.
 Print Assumptions C06_strand_flattening.
+
+(* structure-oriented layout, no per-case hypothesis: every loaded and seeded document, every string that fits its arrays *)
+Theorem C06_struct_loaded_designed_string_flows : forall (ls : list pline) (p : pspec) (lay : layout) (g : cgraph) (nts : list ascii),
+  load_spec ls pspec0 = OK p -> seed p true = OK (lay, g) ->
+  forall (e w : list (option nat)) (s : list (option ascii)), get_constraints p true = DOk e w s -> fits nts e w ->
+  exists (a : results) (recs : list (string * list ascii)),
+    process_results p lay nts = OK a /\ output_records p a = OK recs /\
+    (forall k n t, nth_error (p_bases p) k = Some (n, t) ->
+       exists v wv, In (n, v) recs /\ In ((n ++ "*")%string, wv) recs /\ wc_codes v = Some wv /\ List.length v = List.length t) /\
+    (forall n items l d, In (n, (items, l, d)) (p_strands p) ->
+       exists vs, afind (r_strands a) n = Some vs /\ read_positions nts (tstart_of lay n) l = OK vs /\
+         forall o c par, o < l -> nth o (flat_map (ref_c p (ctbl p)) items) (DAux 0 0, false) = (c, par) ->
+           exists k i bn t v b, c = DAux (2 * k) i /\ nth_error (p_bases p) k = Some (bn, t) /\ In (bn, v) recs /\
+                                nth_error v i = Some (base_char b) /\ nth_error vs o = Some (base_char (app_par par b))) /\
+    (forall sn names sy len, In (sn, (names, sy, len)) (p_structs p) ->
+       In (sn, join_plus (map (fun n => match afind (r_strands a) n with Some v => v | None => [] end) names)) recs).
+Proof. exact sloaded_design_results_ok. Qed.
+Print Assumptions C06_struct_loaded_designed_string_flows.
